@@ -60,6 +60,7 @@ if os.path.exists(os.path.join(d4, 'patch.diff')):
         kept.append(os.path.basename(dst))
     else:
         print(pid, 4, 'harmless refactoring NOT VERIFIED apply=%d build=%d ctest=%s' % (a.returncode, b.returncode, okc))
+subprocess.run('rm -rf /tmp/mutout_%s; cp -r %s/out /tmp/mutout_%s' % (os.path.basename(wt), wt, os.path.basename(wt)), shell=True)   # kept until the coordinator has looked at the unverified ones
 subprocess.run(['git', '-C', '/repo', 'worktree', 'remove', '--force', wt])
 subprocess.run(['git', '-C', '/repo', 'worktree', 'prune'])
 print('kept:', ' '.join(kept))
